@@ -121,6 +121,16 @@ pub fn is_slice_uniform(slice: &[u8]) -> bool {
     true
 }
 
+/// Line ends of the notes are nulls in the file and line feeds in memory; CR LF counts as one line end.
+/// The result contains no CR LF pair, so that saving and loading reproduces it exactly.
+fn normalize_notes(notes: &str) -> String {
+    let mut ans = notes.to_string();
+    while ans.contains("\r\n") {
+        ans = ans.replace("\r\n","\n");
+    }
+    ans
+}
+
 /// Calculate the checksum for the TD0 data in `buf`
 pub fn crc16(crc_seed: u16, buf: &[u8]) -> u16
 {
@@ -803,7 +813,7 @@ impl img::DiskImage for Td0 {
             ans.comment_header = Some(CommentHeader::from_bytes(&optional_get_slice!(expanded,ptr,10,"comment header").to_vec()).expect("unreachable"));
             let comment_len = u16::from_le_bytes(ans.comment_header.as_ref().unwrap().data_length) as usize;
             // lines are separated by nulls in the file (see `to_bytes`)
-            ans.comment_data = Some(String::from_utf8_lossy(&optional_get_slice!(expanded,ptr,comment_len,"comment data").to_vec()).replace("\x00","\n"));
+            ans.comment_data = Some(normalize_notes(&String::from_utf8_lossy(&optional_get_slice!(expanded,ptr,comment_len,"comment data").to_vec()).replace("\x00","\n")));
             debug!("comment data `{}`",ans.comment_data.as_ref().unwrap());
             // CRC of comment
             if u16::from_le_bytes(ans.comment_header.as_ref().unwrap().crc)!=crc16(0,&expanded[14..22+comment_len]) {
@@ -1043,7 +1053,12 @@ impl img::DiskImage for Td0 {
             putByte!(val,key_path,td0,self.header.dos_alloc_flag);
             putByte!(val,key_path,td0,self.header.sides);
             if meta::match_key(key_path, &[&td0,"comment","notes"]) {
-                self.comment_data = Some(val.to_string());
+                if val.contains('\x00') {
+                    error!("TD0 notes cannot contain a null (nulls are the line separators in the file)");
+                    return Err(Box::new(img::Error::MetadataMismatch));
+                }
+                // line ends are saved as nulls and loaded as line feeds: keep that one form in memory
+                self.comment_data = Some(normalize_notes(val));
                 if self.comment_header.is_none() {
                     self.comment_header = Some(CommentHeader {
                         crc: [0,0], // computed in to_bytes
